@@ -423,6 +423,8 @@ def compare_units(c, rec, u, v, prefix, ucls, free, nfac, has_float, same_regist
             if kind == "offset-gained":
                 # an offset-free unit whose expression is the symbol of an offset unit; the operation that produced that state names the mechanism
                 k = "offset-symbol-after-" + (mech or "unknown-operation")
+            elif kind == "offset-lost" and isinstance(u.expr, c.sympy.Symbol) and not is_offset_symbol(c, u):
+                k = "offsetless-symbol-carrying-offset"     # e.g. 'degree' with lat's zero point after a product was simplified
             rec.violation(f"{prefix}:{kind}:{k}", msg, case)
     du, dv = udims(u), udims(v)
     if du is None or dv is None:
